@@ -50,7 +50,7 @@ def run(ctx):
         return res
     ctx.eval_cases = eval_cases
     return standard(ctx,
-        props=[("Props.C02", ["c02_binding", "c02_signed_by_loaded_signer", "c02_published_for_every_initial_list", "c02_other_user_refused", "c02_extensions",
+        props=[("Props.C02", ["c02_binding", "c02_signed_by_loaded_signer", "c02_published_for_every_initial_list", "c02_other_user_refused", "c02_extensions", "c02_extensions_env_independent", "c02_env_shadows_user_refuted",
                               "c02_failed_expansion_refused", "c02_names_injective", "c02_no_other_names", "c02_user_is_normalised",
                               "c02_identity_is_account", "c02_other_spelling_refused", "c02_normalised_name_certified",
                               "c02_normalise_idempotent", "c02_normalise_idempotent_okta", "c02_typed_identity_refuted", "c02_old_krb_refuted"])],
